@@ -103,18 +103,12 @@ impl Expression {
                     },
                     op,
                     Const(bitvec),
-                ) if (bitvec.is_zero() || bitvec.is_one())
-                    && matches!(op, IntEqual | IntNotEqual) =>
-                {
+                ) if bitvec.is_zero() && matches!(op, IntEqual | IntNotEqual) => {
                     // `0 == x - y` is equivalent to `x == y`
-                    let new_op = match (op, bitvec.is_zero()) {
-                        (IntEqual, true) | (IntNotEqual, false) => IntEqual,
-                        (IntEqual, false) | (IntNotEqual, true) => IntNotEqual,
-                        _ => unreachable!(),
-                    };
+                    // and `0 != x - y` is equivalent to `x != y`.
                     *self = Expression::BinOp {
                         lhs: inner_lhs.clone(),
-                        op: new_op,
+                        op: *op,
                         rhs: inner_rhs.clone(),
                     }
                 }
